@@ -240,6 +240,7 @@ const (
 	chkOpen                // C05: the directory opens at the end
 	monList                // C05: list-integrity monitor after every step
 	monLocks               // C08: lock-ownership monitor
+	crashFirst             // the first process may be abandoned before any of its filesystem steps
 )
 
 // scenario: one operation per process (each on its own handle, opened before
@@ -270,9 +271,13 @@ func scenario(ops []int, nInit int, hash int, maxPre int, checks int) {
 		procs = append(procs, p)
 	}
 	VerifAs(0)
-	for _, p := range procs {
+	for i, p := range procs {
 		p := p
-		VerifSpawn(func() { runOp(p) })
+		if i == 0 && checks&crashFirst != 0 {
+			VerifSpawnCrashable(func() { runOp(p) })
+		} else {
+			VerifSpawn(func() { runOp(p) })
+		}
 	}
 	VerifRun(maxPre)
 	if checks&chkErrors != 0 {
@@ -993,4 +998,12 @@ func Harness_C16_failures() {
 		VerifAssert(quiescentDirOK(fin), "residue-after-operation")
 	}
 	VerifCover("done")
+}
+
+// Harness_C05_crash: the list stays valid at every instant also when a process is abandoned at any point while another one carries on.
+// bounds: 2 processes: the first (Add with auto-compaction, CompactAll, or compactRange(0,1)) may be abandoned immediately before any of its filesystem steps; the second runs open+Add; stack of 3 tables; <= 1 preemption besides the crash
+// covers: done
+func Harness_C05_crash() {
+	op := []int{opAddAuto, opCompactAll, opCompactFirstTwo}[VerifChoose(3)]
+	scenario([]int{op, opOpenAdd}, 3, 0, 1, chkOpen|monList|crashFirst)
 }
